@@ -176,6 +176,8 @@ type Engine struct {
 	feas          *Solver
 	feasPool      []*Solver
 	feasPar       int
+	feasUnk       int
+	feasTimeout   int
 	feasN         int
 	feasCut       int
 	feasMs        int64
@@ -306,7 +308,7 @@ func lessKey(a, b []int) bool {
 
 func (e *Engine) mergeKey(c *Config) string {
 	var sb strings.Builder
-	for _, f := range c.stack {
+	for fi, f := range c.stack {
 		fmt.Fprintf(&sb, "%p:%d:%d:%d:%v", f.fn, f.blk.Index, f.idx, f.mode, f.deferred)
 		for _, l := range f.loops {
 			fmt.Fprintf(&sb, "L%d.%d.%d", l.h.Index, l.iter, l.epoch)
@@ -317,7 +319,9 @@ func (e *Engine) mergeKey(c *Config) string {
 		if f.pending != nil {
 			fmt.Fprintf(&sb, "P%d", f.pending.Pos)
 		}
-		if f.opTag != "" && f.opTagBlk == f.blk.Index && f.opTagIdx == f.idx {
+		// the identity a register was concretised to matters only for the instruction being executed (top
+		// frame); an outer frame parked at its call instruction moves on when the callee returns
+		if fi == len(c.stack)-1 && f.opTag != "" && f.opTagBlk == f.blk.Index && f.opTagIdx == f.idx {
 			sb.WriteString("T" + f.opTag)
 		}
 		sb.WriteString("|")
@@ -1100,12 +1104,14 @@ func (e *Engine) feasibleBatch(gs []*Term) []bool {
 					continue
 				}
 				as := append(append([]*Term{}, e.constraints...), gs[i])
-				r := sv.Check(as, 4000, false)
+				r := sv.Check(as, e.feasTimeout, false)
 				mu.Lock()
 				e.feasN++
 				if r.Status == "unsat" {
 					e.feasCut++
 					res[i] = false
+				} else if r.Status != "sat" {
+					e.feasUnk++
 				}
 				mu.Unlock()
 			}
